@@ -116,6 +116,7 @@ pub fn run(ctx: &Ctx, rep: &mut Reporter) {
 
 fn check(text: &[u8], model: &Model<'_>, probes: &[String], methods: &[String], rep: &mut Reporter, case_idx: u64) {
     let m = cur::mapper(text, false);
+    let mp = cur::mapper(text, true);
     let bytes = cur::write_cache(text).expect("write to Vec");
     let buf = AlignedBuf::from_bytes(&bytes);
     let cache = match cur::parse_cache(buf.as_slice()) {
@@ -132,9 +133,13 @@ fn check(text: &[u8], model: &Model<'_>, probes: &[String], methods: &[String], 
     let mut got = vec![];
     for c in probes {
         let exp = model.class(c);
-        for which in 0..2 {
-            let who = ["mapper", "cache"][which];
-            let g = if which == 0 { m.class(c) } else { cache.class(c) };
+        for which in 0..3 {
+            let who = ["mapper", "cache", "mapper+params"][which];
+            let g = match which {
+                0 => m.class(c),
+                1 => cache.class(c),
+                _ => mp.class(c),
+            };
             rep.count("evaluations", 1);
             if g != exp {
                 let mut d = mapping_detail(text, "");
@@ -149,7 +154,11 @@ fn check(text: &[u8], model: &Model<'_>, probes: &[String], methods: &[String], 
                 };
                 rep.violation(case_idx, "model-class", &format!("remap_class impl={who}: {kind}"), d);
             }
-            let t = if which == 0 { m.throwable(c, Some("m: x")) } else { cache.throwable(c, Some("m: x")) };
+            let t = match which {
+                0 => m.throwable(c, Some("m: x")),
+                1 => cache.throwable(c, Some("m: x")),
+                _ => mp.throwable(c, Some("m: x")),
+            };
             rep.count("evaluations", 1);
             let texp = exp.map(|o| (o, Some("m: x")));
             if t != texp {
@@ -173,9 +182,13 @@ fn check(text: &[u8], model: &Model<'_>, probes: &[String], methods: &[String], 
         }
         for me in methods {
             let mexp = model.method(c, me);
-            for which in 0..2 {
-                let who = ["mapper", "cache"][which];
-                let g = if which == 0 { m.method(c, me) } else { cache.method(c, me) };
+            for which in 0..3 {
+                let who = ["mapper", "cache", "mapper+params"][which];
+                let g = match which {
+                    0 => m.method(c, me),
+                    1 => cache.method(c, me),
+                    _ => mp.method(c, me),
+                };
                 rep.count("evaluations", 1);
                 if g != mexp {
                     let mut d = mapping_detail(text, "");
@@ -193,10 +206,10 @@ fn check(text: &[u8], model: &Model<'_>, probes: &[String], methods: &[String], 
                 // consistency with line-based remapping
                 if let Some((_, n)) = g {
                     for l in lines {
-                        if which == 0 {
-                            m.frames(c, me, l, None, None, &mut got)
-                        } else {
-                            cache.frames(c, me, l, None, None, &mut got)
+                        match which {
+                            0 => m.frames(c, me, l, None, None, &mut got),
+                            1 => cache.frames(c, me, l, None, None, &mut got),
+                            _ => mp.frames(c, me, l, None, None, &mut got),
                         }
                         rep.count("evaluations", 1);
                         rep.count("consistency_checks", 1);
